@@ -313,6 +313,7 @@ class Exec:
                       "inlined": 0}
         self._impl_index = None
         self.loopinfo = {}
+        self.loop_passed = {}
 
     # ------------------------------------------------------------------ z3 helpers
     def uf(self, name, *sorts):
@@ -1037,6 +1038,7 @@ class Exec:
         assigned = {}
         for head, body in headers.items():
             locs = set()
+            passed = set()
             for b in body:
                 blk = fn.blocks[b]
                 for s in blk.stmts:
@@ -1052,7 +1054,12 @@ class Exec:
                 if t and t[0] == "call":
                     for a in t[3]:
                         if a[0] in ("copy", "move") and a[1][0] == "local" and is_mut_ref(fn.locals.get(a[1][1], "")):
-                            locs.add(a[1][1])
+                            if a[1][1] not in locs:
+                                passed.add(a[1][1])
+            # a `&mut` local that is only handed to calls in the loop (never re-assigned) keeps pointing at the same object:
+            # its pointee is havocked, the reference is not
+            self.loop_passed.setdefault(fn.name, {})[head] = {n for n in passed if n not in locs}
+            locs |= passed
             assigned[head] = locs
         info = (headers, assigned, back)
         self.loopinfo[fn.name] = info
@@ -1116,7 +1123,7 @@ class Exec:
                         base = f"h{fr.bb}_{n}_{self.nfresh}"
                         self.nfresh += 1
                         old = st.cells.get(c) if c is not None else None
-                        if isinstance(old, Ref) and getattr(self, "havoc_pointees", False):
+                        if isinstance(old, Ref) and (getattr(self, "havoc_pointees", False) or n in self.loop_passed.get(fn.name, {}).get(fr.bb, ())):
                             # a reference held in a local that is (re)borrowed mutably in the loop: havoc the pointee
                             tgt = self.read_ref(st, old)
                             self.write_ref(st, old, self.havoc_like(st, tgt, base, strip_ref(ty)))
